@@ -501,3 +501,88 @@ def mixed_text(rng):
     s = render(g.script(), rng, layout='random', comments=0.2, recase='random')
     k = rng.randrange(0, len(s) + 1)
     return s[:k] + junk(rng, rng.choice([1, 2, 3])) + s[k:], 'sql+junk'
+
+
+# ------------------------------------------------------------------------------------------------
+# procedural grammar (C17)
+class ProcGen(SqlGen):
+    def __init__(self, rng, full=True, max_depth=2):
+        super().__init__(rng, max_depth=max_depth)
+        self.full = full       # include the productions outside G17' (FOR..LOOP, CASE stmt, DECLARE before BEGIN)
+
+    def simple_stmt(self):
+        r = self.r.random()
+        if r < 0.3:
+            return self.select(2)
+        if r < 0.5:
+            return self.update(2)
+        if r < 0.6:
+            return self.insert(2)
+        if r < 0.8:
+            return [nm(self.ident_plain()), WS0, ('op', ':='), WS0] + self.expr(2)
+        if r < 0.9:
+            return [kw('RETURN'), WS1] + self.expr(2)
+        return [kw('RAISE'), WS1, kw('NOTICE'), WS1] + self.string()
+
+    def items(self, d):
+        out = []
+        for _ in range(self.r.choice([1, 1, 2, 3])):
+            out += self.item(d) + [WS1]
+        return out
+
+    def item(self, d):
+        r = self.r.random()
+        if d >= 3:
+            r *= 0.4
+        semi = [WS0, ('punct', ';')]
+        if r < 0.45:
+            return self.simple_stmt() + semi
+        if r < 0.55:
+            return [kw('BEGIN'), WS1] + self.items(d + 1) + [kw('END')] + semi
+        if r < 0.70:
+            out = [kw('IF'), WS1] + self.cond(2) + [WS1, kw('THEN'), WS1] + self.items(d + 1)
+            if self.r.random() < 0.3:
+                out += [kw('ELSIF'), WS1] + self.cond(2) + [WS1, kw('THEN'), WS1] + self.items(d + 1)
+            if self.r.random() < 0.4:
+                out += [kw('ELSE'), WS1] + self.items(d + 1)
+            return out + [kw('END IF')] + semi
+        if r < 0.78:
+            return [kw('WHILE'), WS1] + self.cond(2) + [WS1, kw('DO'), WS1] + self.items(d + 1) + \
+                [kw('END WHILE')] + semi
+        if r < 0.84:
+            return [kw('LOOP'), WS1] + self.items(d + 1) + [kw('END LOOP')] + semi
+        if not self.full:
+            return self.simple_stmt() + semi
+        if r < 0.92:
+            head = [kw('FOR'), WS1, nm('i'), WS1, kw('IN'), WS1, ('lit', '1'), ('punct', '.'), ('punct', '.'),
+                    ('lit', '10')] if self.r.random() < 0.5 else [kw('WHILE'), WS1] + self.cond(2)
+            return head + [WS1, kw('LOOP'), WS1] + self.items(d + 1) + [kw('END LOOP')] + semi
+        out = [kw('CASE')]
+        for _ in range(self.r.choice([1, 2])):
+            out += [WS1, kw('WHEN'), WS1] + self.cond(2) + [WS1, kw('THEN'), WS1] + self.items(d + 1)
+        return out + [kw('END'), WS1, kw('CASE')] + semi
+
+    def create(self):
+        out = [kw(self.r.choice(['CREATE', 'CREATE OR REPLACE'])), WS1,
+               kw(self.r.choice(['FUNCTION', 'PROCEDURE', 'TRIGGER'])), WS1, nm(self.ident_plain()),
+               ('punct', '('), ('punct', ')')]
+        if self.r.random() < 0.5:
+            out += [WS1, kw('RETURNS'), WS1, nm('int')]
+        if self.r.random() < 0.3:
+            out += [WS1, kw('AS')]
+        if self.full and self.r.random() < 0.25:
+            out += [WS1, kw('DECLARE'), WS1, nm('x'), WS1, nm('int'), ('punct', ';')]
+        out += [WS1, kw('BEGIN'), WS1]
+        if self.r.random() < 0.3:
+            out += [kw('DECLARE'), WS1, nm('y'), WS1, nm('int'), ('punct', ';'), WS1]
+        out += self.items(1) + [kw('END'), WS0, ('punct', ';')]
+        return out
+
+    def script_with_create(self):
+        pre = []
+        for _ in range(self.r.choice([0, 1, 2])):
+            pre += self.statement() + [WS0, ('punct', ';'), WS1]
+        post = []
+        for _ in range(self.r.choice([0, 1, 2])):
+            post += [WS1] + self.statement() + [WS0, ('punct', ';')]
+        return pre, self.create(), post
